@@ -581,7 +581,7 @@ theorem fault_hedId_issue (env : Env) (s : Schema) (_hc : Compliant env s) (t : 
     V.hedId IK.hedIdInvalid he hv (fun _ => rfl) (probe_withAttr t _ _ e (by decide)) (mem_setAttr _ _ _)
     (validators_hedId _ hg')
     (by
-      simp only [validate, vHedId]
+      simp only [validate, vHedId, vHedIdLib]
       simp only [withAttr, getAttr_setAttr_self]
       simp only [withAttr] at hbad
       cases hp : pyInt (removePrefix hedPrefix v) with
@@ -1050,6 +1050,32 @@ theorem warnings_off_only_structural (env : Env) (s : Schema) :
   show prereleaseIssues env s false ++ prologueIssues s false ++
     secOrder.flatMap (secIssues env s (tagCtx s) false) ++ dupIssues s (tagCtx s) false = _
   rw [h]
+
+/-! ## The defect fixed by aa5708e, on the model of the old code -/
+
+/-- a library tag `Lib/Sub` (hedId 99999, outside the library range 40000–59999) below the library tag `Lib`,
+`inLibrary` inheritable as in ≥ 8.3 schemas -/
+def nestedCtx : TagCtx :=
+  { tags := #[⟨['L','i','b'], [(Key.InLibrary, .text ['s','c','o','r','e'])], [], [], []⟩,
+              ⟨['L','i','b','/','S','u','b'],
+               [(Key.InLibrary, .text ['s','c','o','r','e']), (Key.HedID, .text ['H','E','D','_','0','0','9','9','9','9','9'])],
+               [], [], []⟩],
+    tbl := ∅, parent := #[none, some 0], hashChild := #[false, false], inheritable := [Key.InLibrary] }
+
+def nestedEnv : Env := ⟨[], [(['s','c','o','r','e'], 40000, 59999)], [], []⟩
+
+def nestedTag : IE :=
+  (1, ⟨['L','i','b','/','S','u','b'],
+       [(Key.InLibrary, .text ['s','c','o','r','e']), (Key.HedID, .text ['H','E','D','_','0','0','9','9','9','9','9'])],
+       [], [], []⟩)
+
+/-- before aa5708e the library of a nested library tag was read as the inherited, comma-joined value
+("score,score"): no id range was found and the out-of-range hedId went unreported; the current code reports it -/
+theorem hedid_nested_library_counterexample :
+    idLibOld nestedCtx .tags nestedTag = ['s','c','o','r','e',',','s','c','o','r','e'] ∧
+    vHedIdOld nestedEnv nestedCtx .tags nestedTag Key.HedID = [] ∧
+    idLib nestedCtx .tags nestedTag = ['s','c','o','r','e'] ∧
+    vHedId nestedEnv nestedCtx .tags nestedTag Key.HedID = [IK.hedIdInvalid] := by decide
 
 /-! ## Non-vacuity: the hypotheses are satisfiable (a two-entry schema; the driver evaluates `compliantB`
 and `admissible` on every bundled schema and every position the harness uses) -/
